@@ -23,7 +23,7 @@ use tokio::io::{BufReader, BufWriter};
 use tokio::net::tcp::{OwnedReadHalf, OwnedWriteHalf};
 #[cfg(not(repe_verif))]
 use tokio::net::{TcpStream, ToSocketAddrs};
-use tokio::sync::{Mutex, oneshot};
+use tokio::sync::{Mutex, Notify, oneshot};
 use tokio::task::JoinError;
 use tokio::time::{Duration, timeout};
 
@@ -44,6 +44,10 @@ struct AsyncClientInner {
     /// before the frame was completely flushed. Part of that frame may be on
     /// the wire, so nothing may be written after it.
     write_torn: AtomicBool,
+    /// Signalled by the response loop once the connection has failed, so that a
+    /// request write parked on a peer that stopped reading gives up (and gives
+    /// the writer lock back) instead of waiting for that peer.
+    conn_failed: Notify,
 }
 
 /// Marks the connection as torn unless the frame was written and flushed in full.
@@ -141,6 +145,7 @@ impl AsyncClient {
             next_id: AtomicU64::new(1),
             shutdown: StdMutex::new(Some(shutdown_tx)),
             write_torn: AtomicBool::new(false),
+            conn_failed: Notify::new(),
         });
 
         spawn_response_loop(
@@ -691,6 +696,11 @@ impl AsyncClient {
 
     async fn write_request(&self, msg: &Message) -> Result<(), RepeError> {
         let mut writer = self.inner.writer.lock().await;
+        // Registered before the flag is read, so a failure signalled in between
+        // is not missed.
+        let conn_failed = self.inner.conn_failed.notified();
+        tokio::pin!(conn_failed);
+        conn_failed.as_mut().enable();
         if self.inner.write_torn.load(Ordering::Acquire) {
             // An earlier request write was abandoned or failed part-way: part
             // of that frame may be on the wire and the peer could never
@@ -707,8 +717,16 @@ impl AsyncClient {
             write_torn: &self.inner.write_torn,
             complete: false,
         };
-        write_message_async(&mut *writer, msg).await?;
-        writer.flush().await?;
+        tokio::select! {
+            biased;
+            // The response loop has failed the connection: whatever is still
+            // unwritten never will be (the peer may have stopped reading).
+            _ = &mut conn_failed => return Err(torn_connection_error()),
+            written = async {
+                write_message_async(&mut *writer, msg).await?;
+                writer.flush().await.map_err(RepeError::from)
+            } => written?,
+        }
         guard.complete = true;
         Ok(())
     }
@@ -922,6 +940,12 @@ async fn fail_all_pending(inner: &std::sync::Weak<AsyncClientInner>, err: RepeEr
         return;
     };
 
+    // Nothing may be written any more. A request write parked on a peer that
+    // stopped reading holds the writer lock taken below: wake it so it fails
+    // and releases the lock.
+    inner_ref.write_torn.store(true, Ordering::Release);
+    inner_ref.conn_failed.notify_waiters();
+
     {
         let mut writer = inner_ref.writer.lock().await;
         let _ = writer.shutdown().await;
@@ -984,7 +1008,7 @@ fn clone_fatal_error_for_waiter(err: &RepeError, request_id: u64) -> RepeError {
 fn torn_connection_error() -> RepeError {
     RepeError::Io(std::io::Error::new(
         ErrorKind::BrokenPipe,
-        "connection failed: an earlier request write was abandoned or failed mid-frame",
+        "connection failed: the connection was lost, or an earlier request write was abandoned or failed mid-frame",
     ))
 }
 
